@@ -22,6 +22,7 @@ ASSUMPTIONS = ['firmware V2 block-creation layout: entries of (type:u8, id:u16);
 REQUIRED = ['mon.configs_accepted', 'mon.configs_rejected', 'mon.create_messages', 'mon.append_messages',
             'mon.data_packets_decoded', 'mon.flag_checks', 'mon.readd_checks', 'mon.synclogger_samples',
             'mon.rejected_then_readded_on_newer_firmware', 'mon.delivered_samples_rechecked_later',
+            'mon.synclogger_first_sample_right_behind_start_ack',
             'mon.boundary_26', 'mon.device_errors_injected']
 DESC_TIMEOUT = 900
 
@@ -108,6 +109,8 @@ def run(desc, ctx):
             e[2] = rnd.choice((1, 4, 1, 2))
     dev = simcf.SimCF(prof)
     spec = simlink.LinkSpec(dev)
+    if desc['hist'] == 1 and (desc['seed'] // 4) % 2 == 0:
+        spec.latency = 0.0      # answers (and the first sample) are there the moment the request has gone out
     uri = 'sim://c05'
     simlink.SIMS[uri] = spec
     specs = build_config(rnd, dev, desc)
@@ -233,6 +236,17 @@ def run(desc, ctx):
                 lc2 = mkconf()
                 sl = SyncLogger(cf, lc2)
                 ob['sync'] = {'yielded': consumer_out, 'ended': False, 'sent': []}
+                if (desc['seed'] // 4) % 2 == 0:
+                    # the device sends the first sample of the new block right behind the START acknowledgement
+                    def first_sample(bid):
+                        if bid == lc.id or bid not in dev.blocks or ob['sync']['sent']:
+                            return None
+                        b2 = dev.blocks[bid]
+                        vals0 = [_val(rnd, op[0]) for op in b2.ops]
+                        ob['sync']['sent'].append((0x00ABCD, vals0, [op[0] for op in b2.ops]))
+                        ob['sync']['immediate_first_sample'] = True
+                        return (vals0, 0x00ABCD)
+                    dev.hooks['log_first_sample'] = first_sample
 
                 def consume():
                     with sl as logger:
@@ -440,6 +454,8 @@ def run(desc, ctx):
     if ob['sync'] is not None:
         y, sent2 = ob['sync']['yielded'], ob['sync']['sent']
         ctx.count('mon.synclogger_samples', len(y))
+        if ob['sync'].get('immediate_first_sample'):
+            ctx.count('mon.synclogger_first_sample_right_behind_start_ack')
         if not ob['sync']['ended']:
             V('log:synclogger-iteration-did-not-end-at-disconnect', {})
         oky = len(y) == len(sent2)
@@ -450,7 +466,9 @@ def run(desc, ctx):
                                     for nm, v, t in zip(names, vals, types)):
                     oky = False
         if not oky:
-            V('log:synclogger-did-not-yield-each-sample-once-in-order', {'sent': len(sent2), 'yielded': len(y)})
+            V('log:synclogger-did-not-yield-each-sample-once-in-order',
+              {'sent': len(sent2), 'yielded': len(y), 'sent_timestamps': [x[0] for x in sent2][:16],
+               'yielded_timestamps': [x[0] for x in y][:16], 'first_sample_right_behind_start_ack': bool(ob['sync'].get('immediate_first_sample'))})
     ctx.nontrivial((core.h64(shown), desc['hist'], core.h64([e[3].hex() for e in evs])))
     ctx.sample({'variables': shown[:8], 'n_variables': len(specs), 'payload_bytes': payload, 'period_ms': period,
                 'history': desc['hist'], 'create_append_messages': [(e[0], len(e[3])) for e in evs],
